@@ -27,6 +27,7 @@ OBLIGATIONS = ["callbacks_on_owner_thread", "callbacks_never_concurrent",
                "loop_callbacks_on_owner_thread", "posting_api_runs_no_callback",
                "orch_start_refuted"]
 N_QUICK, N_THOROUGH = 36, 400
+N_SEARCH = 72   # size of the extra oracle search after a broken obligation/correspondence (real threaded runs are slow)
 PARALLEL = 8
 SHARD = 20
 RUN_TIMEOUT = 90
